@@ -127,7 +127,7 @@ structure GState where
 def ofN (d : List (Nat × Nat)) : List (U × U) := d.map (fun p => (p.1.toUInt64, p.2.toUInt64))
 
 def stateStr (st : GState) : String :=
-  s!"@{showList (st.dims.map (fun d => d.1.toNat))}|{showList (st.dims.map (fun d => d.2.toNat))}"
+  s!"@{showList (st.dims.map (fun d => d.1.toNat))}|{showList (st.dims.map (fun d => d.2.toNat))};dl={st.dataLen}"
 
 /-- One step of a program on an owned tensor. A failing call leaves the state unchanged
 (that is what the fixed code does; the harness reports the layout after every call). -/
@@ -189,6 +189,17 @@ def growOp (nd : Bool) (st : GState) (op : String) : Option (GState × String) :
         | none => some (st, "panic")
         | some d => some ({ st with dims := ofN d }, "ok")
       | _ => none
+    | ["rs", arg] =>
+      match parseList arg with
+      | some shape =>
+        if nd then some (st, "n/a")
+        else match reshape ⟨dn, st.dataLen, st.cap⟩ shape with
+          | none => some (st, "panic")
+          | some t => some ({ dims := ofN t.dims, dataLen := t.dataLen, cap := t.cap }, "ok")
+      | none => none
+    | ["mc", _] =>
+      let t := makeContiguous ⟨dn, st.dataLen, st.cap⟩
+      some ({ dims := ofN t.dims, dataLen := t.dataLen, cap := t.cap }, "ok")
     | ["sz", arg] =>
       match arg.toNat? with
       | some d => some (st, match sizeOf? dn d with | some x => toString x | none => "panic")
